@@ -532,6 +532,41 @@ pub fn long_text(ascii_only: bool) -> BoxedStrategy<Vec<u8>> {
         .boxed()
 }
 
+/// A run of visible text of 64 KiB and more (16-bit length boundaries and beyond the size of
+/// pipe buffers and typical internal chunks), built like `long_text`.
+pub fn huge_text(ascii_only: bool) -> BoxedStrategy<Vec<u8>> {
+    (
+        select(vec![65_534usize, 65_535, 65_536, 65_537, 70_000, 131_071, 131_072, 131_073, 200_000]),
+        select(vec![b'a', b' ', b'0', b'x', b';']),
+        proptest::collection::vec((any::<u16>(), 0u8..5), 0..5),
+    )
+        .prop_map(move |(len, fill, extras)| {
+            let mut out = vec![fill; len];
+            // a few foreign cells; multi-byte ones replace as many fill bytes as they are long
+            for (frac, kind) in extras {
+                let pos = ((frac as usize * len) >> 16).min(len - 4);
+                let cell: &[u8] = match kind {
+                    0 if !ascii_only => "\u{e9}".as_bytes(),
+                    1 if !ascii_only => "\u{1f600}".as_bytes(),
+                    2 => b"\n",
+                    3 => b"\t",
+                    _ => b"m",
+                };
+                if out[pos..pos + cell.len()].iter().all(|b| *b == fill) {
+                    out[pos..pos + cell.len()].copy_from_slice(cell);
+                }
+            }
+            out
+        })
+        .boxed()
+}
+
+/// put a huge text item into a stream at a relative position
+pub fn insert_huge(items: &mut Vec<Item>, bytes: Vec<u8>, frac: u16) {
+    let pos = (frac as usize * (items.len() + 1)) >> 16;
+    items.insert(pos, Item::Raw { class: "huge-text", bytes });
+}
+
 pub fn bad_utf8() -> BoxedStrategy<Vec<u8>> {
     prop_oneof![
         vec(0x80u8..=0xbf, 1..=2),                       // lone continuation
